@@ -20,6 +20,10 @@ PROPS = {
              assumptions=["directed-switch targets satisfy the documented preconditions (popped from their pool / observed BLOCKED / TERMINATED); ABT_thread_yield_to only with a pool served by the calling stream"]),
     "C02": P(60000, 1500000, expect_reach=["c02.resumes", "c02.yield_to", "c02.suspend_to", "c02.resume_yield_to", "c02.exit_to", "c02.create_to", "c02.revive_to"],
              assumptions=["as C11; canaries cover rbx, rbp, r12-r15, MXCSR rounding/masks and the x87 control word"]),
+    "C12": P(60000, 1500000, expect_reach=["c12.state_transitions_observed", "c12.cancel_before_start", "c12.revives"],
+             assumptions=["one driver per unit issues create/cancel/join/revive/free sequentially (cancel races with the target's execution, not with its own join); the cancel deadline is checked at ABT_thread_yield and at a suspend that is resumed through a pool, not for direct hand-over resumes"]),
+    "C13": P(60000, 1500000, expect_reach=["c13.requests_checked_must_be_honoured", "c13.requests_overlapping_scheduling_point"],
+             assumptions=["per unit, requests come either from the unit itself or from one issuer, so accepted requests are totally ordered; a request overlapping a scheduling point may be honoured at that point or the next"]),
     "C19": P(60000, 1500000, expect_reach=["c19.timeouts", "c19.signal_with_certain_waiter"],
              assumptions=["deadlines are relative to the run's virtual time scale; TIMEDOUT is checked against the virtual clock, never against elapsed steps"]),
     "C01": P(50000, 1200000, assumptions=["units that create other units finish before streams are joined (a creation racing with the join of the only stream serving the target pool is the program's error)"]),
